@@ -148,7 +148,11 @@ def encoding(t):
                                      context_calibrators=ctx)
     if k == "str":
         lk = None if t[4] == "-" else [dl(x) for x in t[4]]
-        e = enc.StringDataEncoding(encoding=uS(t[1]), fixed_raw_length=optI(t[2]), dynamic_length_reference=optS(t[3]),
+        bo = optS(t[9]) if len(t) > 9 else None
+        if bo == "unrecorded":
+            bo = "mostSignificantByteFirst"
+        e = enc.StringDataEncoding(encoding=uS(t[1]), byte_order=bo, fixed_raw_length=optI(t[2]),
+                                   dynamic_length_reference=optS(t[3]),
                                    discrete_lookup_length=lk, use_calibrated_value=uB(t[5]),
                                    length_linear_adjuster=adjuster(t[6]),
                                    termination_character=None if t[7] == "-" else unhx(t[7]).hex(),
